@@ -244,7 +244,7 @@ C06_Step ==
     /\ DeliverOk(act') => \A i \in MsgIdx(act') : LET m == act'.tx.msgs[i] IN
           (IsDenomMsg(m) \/ IsTokenMsg(m)) => Authorised(act'.tx, m.actor, m.type)
     \* every refused request leaves all denoms, tokens and ownerships unchanged
-    /\ (~DeliverOk(act')) => /\ pnDenoms' = pnDenoms /\ pnTokens' = pnTokens /\ pnIndex' = pnIndex /\ pnSupply' = pnSupply
+    /\ (~DeliverOk(act')) => /\ pnDenoms' = pnDenoms /\ pnTokens' = pnTokens /\ pnIndex' = pnIndex /\ NormSupply(pnSupply') = NormSupply(pnSupply)
 
 -----------------------------------------------------------------------------
 (* C12 - PNFT tokens unique, immutable, isolated, consistently indexed *)
@@ -384,7 +384,9 @@ C08_Step ==
     act'.name = "ExportImportBegin" =>
         /\ act'.exportOk /\ act'.importOk /\ act'.validateOk
         /\ act'.exportTwiceEqual /\ act'.reExportEqual /\ act'.viewsEqual
-        /\ custom' = custom
+        \* the raw stores are reproduced as well (a supply counter of zero and an absent one are the same thing)
+        /\ <<aolOwners', aolTopics', aolWriters', aolRecords', didReg', pnDenoms', pnTokens', pnIndex', NormSupply(pnSupply')>>
+             = <<aolOwners, aolTopics, aolWriters, aolRecords, didReg, pnDenoms, pnTokens, pnIndex, NormSupply(pnSupply)>>
 
 \* restart: committed state survives (the chain-level half of C10; crash points are in Node.tla)
 C10_Step ==
